@@ -36,8 +36,7 @@ func (s *State) SetEntityActionIfLatest(ea *vikjapb.EntityAction) bool {
 	s.entityActionMutex.Lock()
 	defer s.entityActionMutex.Unlock()
 
-	if latest, ok := s.entityActions[ea.EntityId][ea.Name]; ok &&
-		ea.Timestamp.AsTime().Before(latest.Timestamp.AsTime()) {
+	if latest, ok := s.entityActions[ea.EntityId][ea.Name]; ok && older(ea, latest) {
 		return false
 	}
 
@@ -53,6 +52,17 @@ func (s *State) SetEntityActionIfLatest(ea *vikjapb.EntityAction) bool {
 
 	entityActions[ea.Name] = ea
 	return true
+}
+
+// older reports whether the client timestamp of a lies before the one of b.
+// The seconds and nanoseconds are compared as they are: converted to a
+// time.Time, seconds near the top of the int64 range wrap around, and a
+// far-future action was taken for the oldest of all.
+func older(a, b *vikjapb.EntityAction) bool {
+	if a.Timestamp.GetSeconds() != b.Timestamp.GetSeconds() {
+		return a.Timestamp.GetSeconds() < b.Timestamp.GetSeconds()
+	}
+	return a.Timestamp.GetNanos() < b.Timestamp.GetNanos()
 }
 
 func (s *State) EntityAction(entityID uint32, actionName string) (*vikjapb.EntityAction, bool) {
